@@ -45,8 +45,41 @@ def running(extract):
             return extract()
 
 
+async def arec(n):
+    if n:
+        await arec(n - 1)
+    else:
+        await suspend()
+
+
+def grec(n):
+    if n:
+        yield from grec(n - 1)
+    else:
+        yield n
+
+
+def srec(n, outer, extract):
+    import sys
+    if outer is None:
+        outer = sys._getframe()
+    if n:
+        return srec(n - 1, outer, extract)
+    return extract(outer)
+
+
 def build(name):
     import stackscope
+    if name == "rec_await":      # 8 distinct frames of one coroutine function parked on the same line
+        c = arec(8)
+        c.send(None)
+        return stackscope.extract(c, with_contexts=True), c
+    if name == "rec_yield_from":
+        g = grec(6)
+        next(g)
+        return stackscope.extract(g, with_contexts=True), g
+    if name == "rec_sync":       # 7-deep recursion of the running thread
+        return srec(7, None, lambda outer: stackscope.extract(stackscope.StackSlice(outer=outer), with_contexts=True)), None
     if name == "gen":
         g = gen_fn()
         next(g)
@@ -62,4 +95,4 @@ def build(name):
     raise AssertionError(name)
 
 
-NAMES = ["gen", "coro", "running", "running_nocontexts"]
+NAMES = ["gen", "coro", "running", "running_nocontexts", "rec_await", "rec_yield_from", "rec_sync"]
